@@ -2,11 +2,15 @@
 (* C10, part 2: node start-up as a state machine over the rules of ConfigRules.tla:   *)
 (* create all modules, then EITHER refuse (all failing modules reported together,     *)
 (* none of them registered, nothing started, nothing written to hardware) OR start:   *)
-(* every configured write exactly once and before the module's first poll.            *)
+(* every configured write exactly once and before the module's first poll - for a     *)
+(* module that is never polled (enablePoll = False, alone or served by the poll thread *)
+(* of its io module): before the node reports ready.                                   *)
 EXTENDS ConfigRules
 
 (* ------------------------------------------------------------------ node start-up *)
 VARIABLES cfgof,       \* [module name -> configuration] : the merged configuration, fixed during a start-up
+          kindof,      \* [module name -> Kinds] : how the module is served (fixed)
+          ready,       \* the node has reported "all modules started"
           created,     \* [Mods -> {"no", "accepted", "rejected"}]
           registered,  \* modules known to the node
           node,        \* "building" | "refused" | "running"
@@ -14,12 +18,12 @@ VARIABLES cfgof,       \* [module name -> configuration] : the merged configurat
           started,     \* modules whose startModule was called
           pending,     \* [Mods -> set of parameters still to be written]
           polled       \* modules that were polled / read at least once
-nvars == <<cfgof, created, registered, node, reported, started, pending, polled>>
+nvars == <<cfgof, kindof, ready, created, registered, node, reported, started, pending, polled>>
 
 Mods == DOMAIN cfgof
 CfgOf == cfgof
 
-NInit(c) == /\ cfgof = c
+NInit(c, k) == /\ cfgof = c /\ kindof = k /\ ready = FALSE
          /\ created = [m \in DOMAIN c |-> "no"] /\ registered = {} /\ node = "building" /\ reported = {}
          /\ started = {} /\ pending = [m \in DOMAIN c |-> {}] /\ polled = {}
 
@@ -31,33 +35,39 @@ Create(m, out) ==
     /\ created' = [created EXCEPT ![m] = out]
     /\ registered' = IF out = "accepted" THEN registered \cup {m} ELSE registered
     /\ pending' = [pending EXCEPT ![m] = IF out = "accepted" THEN WriteSet(CfgOf[m]) ELSE {}]
-    /\ UNCHANGED <<cfgof, node, reported, started, polled>>
+    /\ UNCHANGED <<cfgof, kindof, ready, node, reported, started, polled>>
 
 Refuse == /\ node = "building" /\ AllCreated /\ Rejected # {}
           /\ node' = "refused" /\ reported' = Rejected
-          /\ UNCHANGED <<cfgof, created, registered, started, pending, polled>>
+          /\ UNCHANGED <<cfgof, kindof, ready, created, registered, started, pending, polled>>
 
 Start(m) == /\ node = "building" /\ AllCreated /\ Rejected = {} /\ m \notin started
             /\ started' = started \cup {m}
             /\ node' = IF started' = Mods THEN "running" ELSE node
-            /\ UNCHANGED <<cfgof, created, registered, reported, pending, polled>>
+            /\ UNCHANGED <<cfgof, kindof, ready, created, registered, reported, pending, polled>>
 
 (* the poll thread of m hands a configured value to write_<p> *)
-Write(m, p) == /\ m \in started /\ p \in pending[m] /\ m \notin polled
+Write(m, p) == /\ m \in started /\ p \in pending[m] /\ m \notin polled /\ ~ready
                /\ pending' = [pending EXCEPT ![m] = @ \ {p}]
-               /\ UNCHANGED <<cfgof, created, registered, node, reported, started, polled>>
+               /\ UNCHANGED <<cfgof, kindof, ready, created, registered, node, reported, started, polled>>
 (* ... a configured value outside the limits may fail the range check instead (loose clause) *)
 WriteRefused(m, p) ==
-               /\ m \in started /\ p \in pending[m] /\ m \notin polled
+               /\ m \in started /\ p \in pending[m] /\ m \notin polled /\ ~ready
                /\ \E e \in Outside(CfgOf[m]) : e.par = p /\ e.prop = "value"
                /\ pending' = [pending EXCEPT ![m] = @ \ {p}]
-               /\ UNCHANGED <<cfgof, created, registered, node, reported, started, polled>>
+               /\ UNCHANGED <<cfgof, kindof, ready, created, registered, node, reported, started, polled>>
 FirstPoll(m) == /\ m \in started /\ pending[m] = {} /\ m \notin polled
                 /\ polled' = polled \cup {m}
-                /\ UNCHANGED <<cfgof, created, registered, node, reported, started, pending>>
+                /\ UNCHANGED <<cfgof, kindof, ready, created, registered, node, reported, started, pending>>
+
+(* the start-up is reported complete: nothing is left to be written, every polled module was polled once *)
+Ready == /\ node = "running" /\ ~ready
+         /\ \A m \in Mods : pending[m] = {} /\ (kindof[m] \in PolledKinds => m \in polled)
+         /\ ready' = TRUE
+         /\ UNCHANGED <<cfgof, kindof, created, registered, node, reported, started, pending, polled>>
 
 NNext == \/ \E m \in Mods, out \in {"accepted", "rejected"} : Create(m, out)
-         \/ Refuse
+         \/ Refuse \/ Ready
          \/ \E m \in Mods : Start(m) \/ FirstPoll(m)
          \/ \E m \in Mods, p \in Params : Write(m, p) \/ WriteRefused(m, p)
 
@@ -73,6 +83,7 @@ NeverIgnored == \A m \in Mods : (Failing(CfgOf[m]) # {} \/ Missing(CfgOf[m]) # {
                                    => created[m] = "rejected" /\ node # "running"
 DecideFirst == started # {} => AllCreated /\ Rejected = {}
 WritesBeforePoll == \A m \in polled : pending[m] = {}
+WritesBeforeReady == ready => \A m \in Mods : pending[m] = {}      \* (also the never polled modules)
 (* exactly once: a parameter leaves `pending` once and never comes back *)
 WriteOnce == [][\A m \in Mods : pending'[m] \subseteq pending[m] \/ created[m] = "no"]_nvars
 =============================================================================
